@@ -53,6 +53,11 @@ func (v *Voxels) ComputeTransform(block *storage.TKeyValue, blockSize dvid.Point
 
 // ReadBlock reads the possibly intersecting block data into the receiver Voxels.
 func (v *Voxels) ReadBlock(block *storage.TKeyValue, blockSize dvid.Point, attenuation uint8) error {
+	// A stored block that doesn't deserialize to a whole block (e.g., a damaged value)
+	// must not be indexed as if it were one.
+	if expected := blockSize.Prod() * int64(v.Values().BytesPerElement()); int64(len(block.V)) != expected {
+		return fmt.Errorf("block has %d bytes instead of the expected %d bytes", len(block.V), expected)
+	}
 	if attenuation != 0 {
 		return v.readScaledBlock(block, blockSize, attenuation)
 	}
